@@ -30,6 +30,7 @@ RULE += ("  " + 'Also: a session retrying its login next to real logins of an ac
 RULE += ("  " + 'Also (round 7): prefixes whose names are textual prefixes of each other, one session dwelling in its directory while the other removes / renames its own; every client operation in all sessions at the same moment (deterministic plans).')
 RULE += ("  " + 'Also (round 8): the second session of a re-used Client object sends what a fresh client sends.')
 RULE += ("  " + 'Also (round 10): two sessions whose commands are refused for different reasons (no login / no RNFR, no listener); the solo reference of each is run in a FRESH PROCESS (fresh_process_solo), so that nothing the library keeps at class or module level is shared with it.')
+RULE += ("  " + 'Also (round 11): MLSD / LIST of the directory both sessions live in, entry by entry (2 ms per step), while the other session removes / creates / renames top-level entries of its own: every entry of the lister exactly once (parent_listing).')
 ASSUMPTIONS = ["MemoryPathIO back end shared by all sessions of the server (as in production: one state per server)",
                "pinned clock for file times"]
 REQUIRED_MONITORS = ["transcript_vs_solo", "tree_vs_solo", "backend_prefix", "clients_vs_solo"]
